@@ -807,4 +807,23 @@ theorem C07_finding_sub_handler_source_value_counted :
     (evalArgumentsT FindingSub.tcfg FindingSub.t0 { file := some ["-s -n 5".toList] }
       ["p".toList, "-s".toList, "-n".toList, "7".toList]).isOk = false := by decide +kernel
 
+/-- the configuration of the next witness: a multi-value list argument `-v` and a flag `-f` -/
+def Continued.cfg : Cfg :=
+  { args := [{ key := ⟨some 'v', []⟩, kind := .vecInt, vmode := .required, card := .unlimited, multi := true },
+             { key := ⟨some 'f', []⟩, kind := .flag, vmode := .none, card := .unlimited }] }
+
+/-- **A value list that begins in a source is continued by the free values that follow in the next source and at
+    the start of the command line** (the last-argument marker survives the end of the argument file and of the
+    environment value: the words are ONE sequence): file line `-v 1`, environment value `2`, argv `3 -f` give the
+    same destinations as `-v 1 2 3 -f` on the command line.  A concrete instance of "same as the words on argv"
+    at a cut INSIDE a separate-value list — the place the seeded change C07-5 (reset of `mpLastArg` when the
+    environment value ends) breaks; the generated `source-continued` cases tie it to the real code. -/
+theorem C07_witness_list_continues_across_sources :
+    (match evalArguments Continued.cfg (Cfg.initState Continued.cfg [.vec [], .flag false])
+        { file := some [['-', 'v', ' ', '1']], env := some ['2'] } [['p'], ['3'], ['-', 'f']] with
+      | .ok h => h.args.map (·.dest) | _ => []) = [.vec [1, 2, 3], .flag true] ∧
+    (match evalArguments Continued.cfg (Cfg.initState Continued.cfg [.vec [], .flag false])
+        {} [['p'], ['-', 'v'], ['1'], ['2'], ['3'], ['-', 'f']] with
+      | .ok h => h.args.map (·.dest) | _ => []) = [.vec [1, 2, 3], .flag true] := by decide +kernel
+
 end CelmaVerif.Props.C07b
